@@ -19,12 +19,14 @@ RULE = ("(a) graph: breadth-first exploration of the COMPLETE reachable state gr
         "w_data in all values) applied at every state, for SyncFIFO and SyncFIFOBuffered, depth 0..5 x width 0..1 and "
         "depth 1..3 x width 2 (quick); depth 0..7 x width 0..1, depth<=4 x width 2, depth<=3 x width 3 (thorough). (b) walks: Hypothesis lists of cycles "
         "(w_en, w_data, r_en) for depth<=17, width<=8, biased to bursts so that full, empty and wrap-around "
-        "occur. Monitor = collections.deque + age counter (FIFO order, no loss/duplication, r_rdy => r_data is "
+        "occur, with occasional domain resets in mid-stream, driven through the classic port names or through the stream "
+        "interfaces (.payload and its shortcut .p). Monitor = collections.deque + age counter (FIFO order, no loss/duplication, r_rdy => r_data is "
         "the oldest, w_rdy => held<depth, level=r_level=w_level=len, w_rdy whenever free>=1 (SyncFIFO) / >=2 "
         "(buffered), head readable within two cycles). Non-trivial transition: one on which an entry is written "
         "or read; distinct by (state, input).")
 ASSUMPTIONS = [
-    "One clock domain, no reset during exploration (reset behaviour is C03's subject).",
+    "One clock domain. The state graph is explored without resets; the walks pulse the domain reset now and then and expect "
+    "an empty queue that carries on as a queue afterwards (every state register returns to its initial value, C03).",
     "State snapshots rely on the simulator keeping all state in engine._state.slots; checked at run time (exit 2 otherwise).",
 ]
 QUICK_SHARDS = 4
@@ -202,7 +204,10 @@ def walk_cases(draw, nsteps):
         we = 1 if mode in (1, 3) and draw(INT(0, 5)) else (draw(INT(0, 1)) if mode == 0 else 0)
         re = 1 if mode in (2, 3) and draw(INT(0, 5)) else (draw(INT(0, 1)) if mode == 0 else 0)
         steps.append([we, draw(INT(0, (1 << width) - 1)), re])
-    return {"kind": kind, "depth": depth, "width": width, "steps": steps}
+    # a few domain resets in mid-stream: the queue is empty afterwards and carries on as a queue; and the route by
+    # which the testbench reaches the ports: the classic names, or the stream interfaces (.payload or its shortcut .p)
+    resets = sorted(set(draw(INT(0, nsteps - 1)) for _ in range(draw(INT(0, 2))))) if draw(INT(0, 2)) == 0 else []
+    return {"kind": kind, "depth": depth, "width": width, "steps": steps, "resets": resets, "route": draw(INT(0, 2))}
 
 
 def walk_body(ctx, case):
@@ -210,17 +215,37 @@ def walk_body(ctx, case):
     sim, cd, fifo = make(kind, depth, width, case)
     mon = Monitor(kind, depth, width)
     fail = []
-    st_ = dict(full=False, empty=False, wrap=False, moved=0, nwr=0)
+    st_ = dict(full=False, empty=False, wrap=False, moved=0, nwr=0, reset_nonempty=False)
+
+    route = case.get("route", 0)
+    resets = set(case.get("resets", []))
+    if route == 0:
+        w_data, w_en, r_en = fifo.w_data, fifo.w_en, fifo.r_en
+    else:
+        ws, rs = fifo.w_stream, fifo.r_stream
+        w_data, w_en, r_en = (ws.payload if route == 1 else ws.p), ws.valid, rs.ready
 
     async def tb(c):
         q, age = (), 0
         for i, inp in enumerate(case["steps"]):
-            c.set(fifo.w_data, inp[1]); c.set(fifo.w_en, inp[0]); c.set(fifo.r_en, inp[2])
+            c.set(w_data, inp[1]); c.set(w_en, inp[0]); c.set(r_en, inp[2])
             out = read_outputs(c, fifo)
+            if route:
+                via = {"w_rdy": c.get(ws.ready), "r_rdy": c.get(rs.valid), "r_data": c.get(rs.payload if route == 1 else rs.p)}
+                if any(via[k] != out[k] for k in via):
+                    fail.append(Mismatch("stream-interface-differs-from-ports", step=i, streams=via,
+                                         ports={k: out[k] for k in via})); return
             try:
                 mon.check_outputs(q, age, out, dict(step=i, queue=list(q), inputs=inp, outputs=out))
             except Mismatch as mm:
                 fail.append(mm); return
+            if i in resets:
+                c.set(cd.rst, 1)
+                c.set(cd.clk, 1); c.set(cd.clk, 0)
+                c.set(cd.rst, 0)
+                if q: st_["reset_nonempty"] = True
+                q, age = (), 0
+                continue
             c.set(cd.clk, 1); c.set(cd.clk, 0)
             q, age, popped, pushed = mon.edge(q, age, inp, out)
             st_["moved"] += popped + pushed
@@ -230,7 +255,7 @@ def walk_body(ctx, case):
             if popped and not q:
                 st_["empty"] = True
         # drain: everything written must come out, in order
-        c.set(fifo.w_en, 0); c.set(fifo.r_en, 1)
+        c.set(w_en, 0); c.set(r_en, 1)
         for _ in range(len(q) + 3):
             out = read_outputs(c, fifo)
             try:
@@ -252,6 +277,8 @@ def walk_body(ctx, case):
     if st_["empty"]: keys.append("walk:empty")
     if st_["nwr"] > depth > 0: keys.append("walk:wrap")
     if depth & (depth - 1) and depth > 2: keys.append("walk:non-pow2-depth")
+    if st_["reset_nonempty"]: keys.append("walk:reset-of-a-non-empty-queue")
+    if route: keys.append("walk:through-stream-interfaces" + ("-shortcut" if route == 2 else ""))
     ctx.extra["traces_validated_against_impl"] = ctx.extra.get("traces_validated_against_impl", 0) + 1
     ctx.note(case, st_["full"] and st_["empty"], *keys, evals=len(case["steps"]))
 
@@ -265,7 +292,8 @@ def parts(tier):
 
 
 REQUIRED = ["graph:SyncFIFO", "graph:SyncFIFOBuffered", "graph:full", "graph:empty_after_use", "graph:wrap",
-            "graph:rw", "graph:depth0", "graph:depth3", "walk:full", "walk:empty", "walk:wrap", "walk:non-pow2-depth"]
+            "graph:rw", "graph:depth0", "graph:depth3", "walk:full", "walk:empty", "walk:wrap", "walk:non-pow2-depth",
+            "walk:reset-of-a-non-empty-queue", "walk:through-stream-interfaces", "walk:through-stream-interfaces-shortcut"]
 
 
 def coverage_extra(tier, counters, extra):
